@@ -868,7 +868,7 @@ def extract_pointers(src, facts, notes):
 def emit_pointers(PT):
     b = lambda x: 'true' if x else 'false'
     out = ['(* --- pointer plumbing (compared with the bodies the model was written against) and ArcUnion tag arithmetic --- *)']
-    for g in ['arc_raw', 'offset', 'borrow', 'thin', 'union', 'swap', 'ctor', 'cow']:
+    for g in ['arc_raw', 'offset', 'borrow', 'thin', 'union', 'swap', 'ctor', 'cow', 'uninit']:
         out.append('Definition %s_forms_ok : bool := %s.' % (g, b(PT['forms'].get(g))))
     U = PT['union']
     out.append('Definition union_tag1 : bexpr := %s.' % U['tag1'])
